@@ -41,6 +41,7 @@ type Clause struct {
 }
 
 type LoopSpec struct {
+	StepHints  []*Clause // proved at every `continue` and at the normal end of the body (in that state), then available to inv-step
 	BreakHints []*Clause // proved at every break out of the loop (in that state, loop-body locals visible) and assumed from there on
 	EntryHints []*Clause // proved when the loop is reached and then available to the invariant-on-entry obligations only
 	Invariants []*Clause
@@ -421,7 +422,7 @@ var funcHdrRe = regexp.MustCompile(`^(extern\s+)?func\s+(?:\(\s*\*?\s*([A-Za-z0-
 var predHdrRe = regexp.MustCompile(`^pred\s+([A-Za-z0-9_]+)\s*\((.*?)\)\s*:=\s*(.*)$`)
 var lemmaHdrRe = regexp.MustCompile(`^(lemma|axiom)\s+([A-Za-z0-9_]+)\s*\((.*)\)\s*$`)
 var bindingRe = regexp.MustCompile(`^binding\s+([A-Za-z0-9_]+)\s*\(\s*([A-Za-z0-9_.]+)\s*\)\s*$`)
-var loopRe = regexp.MustCompile(`^loop\s+([0-9]+)\s*:\s*(invariant|decreases|entry-hint|break-hint)\s+(.*)$`)
+var loopRe = regexp.MustCompile(`^loop\s+([0-9]+)\s*:\s*(invariant|decreases|entry-hint|break-hint|step-hint)\s+(.*)$`)
 
 var clauseKeywords = map[string]bool{"func": true, "extern": true, "pred": true, "lemma": true, "axiom": true, "requires": true, "ensures": true,
 	"assigns": true, "pure": true, "wrapping": true, "prune": true, "trusted": true, "inline": true, "props": true, "loop": true, "let": true,
@@ -720,6 +721,8 @@ func parseContractFile(path string, pkgPath string) (*ContractFile, error) {
 				ls.EntryHints = append(ls.EntryHints, c)
 			} else if m[2] == "break-hint" {
 				ls.BreakHints = append(ls.BreakHints, c)
+			} else if m[2] == "step-hint" {
+				ls.StepHints = append(ls.StepHints, c)
 			} else {
 				ls.Decreases = c
 			}
